@@ -332,3 +332,23 @@ fn session_td_dropped_dependency_cannot_trigger() {
   });
   ::std::mem::forget(pie);
 }
+
+/// Longer history: build, change, build, second change, build (both changes solver-chosen out of three each).
+fn history_td_two_changes(root: u8, first: [u8; 3], second: [u8; 3]) {
+  let mut pie = fresh();
+  let mut cells = INIT;
+  td_build(&mut pie, root, &mut cells, false, true);
+  split(3, |i| { split(3, |j| {
+    let (c1, c2) = (first[i as usize], second[j as usize]);
+    if let Some((c, v)) = change(c1) { set_cell(&mut pie, c, v); cells[c] = v; }
+    td_build(&mut pie, root, &mut cells, c1 == 0, true);
+    if let Some((c, v)) = change(c2) { set_cell(&mut pie, c, v); cells[c] = v; }
+    let nothing = match change(c2) { None => true, Some((c, v)) => false };
+    td_build(&mut pie, root, &mut cells, nothing, true);
+  }); });
+  ::std::mem::forget(pie);
+}
+//@h props=C01:t,C02:t tier=thorough unwind=14 stubs=sort,boxslice timeout=2400 fieldsens=1024
+fn session_td_chain_two_changes() { prog_chain(); history_td_two_changes(0, [2, 1, 3], [0, 3, 6]); }
+//@h props=C01:t,C08:t tier=thorough unwind=14 stubs=sort,boxslice timeout=2400 fieldsens=1024
+fn session_td_dynamic_two_changes() { prog_dynamic(); history_td_two_changes(0, [1, 2, 5], [6, 4, 5]); }
